@@ -314,21 +314,30 @@ def d2_data_order(chk, repo, v, r):
 
 
 # ------------------------------------------------------------------ D3
+def _as_dict_display(x):
+    """`dict(a=1, b=2)` read as the display `{"a": 1, "b": 2}` (keywords only); a display is returned as it is"""
+    if isinstance(x, ast.Call) and isinstance(x.func, ast.Name) and x.func.id == "dict" and not x.args and x.keywords and \
+            all(k.arg is not None for k in x.keywords):
+        return ast.copy_location(ast.Dict(keys=[ast.Constant(k.arg) for k in x.keywords], values=[k.value for k in x.keywords]), x)
+    return x
+
+
 def _dict_literal(v, keys):
     """the statement `name = {<literal dict>}` whose keys are exactly `keys` -> (stmt, name, python value)"""
     for st in v.stmts():
-        if isinstance(st, ast.Assign) and isinstance(st.targets[0], ast.Name) and isinstance(st.value, ast.Dict):
+        if isinstance(st, ast.Assign) and isinstance(st.targets[0], ast.Name) and isinstance(_as_dict_display(st.value), ast.Dict):
             try:
-                val = ast.literal_eval(_with_named_constants(v, st.value))
+                val = ast.literal_eval(_with_named_constants(v, _as_dict_display(st.value)))
             except Exception:
                 continue
             if set(val) == set(keys):
                 return st, st.targets[0].id, val
     # a table that was given a name at module level (`_BINARY_FORMATS = {...}`)
     for st in v.f.module.tree.body:
-        if isinstance(st, ast.Assign) and len(st.targets) == 1 and isinstance(st.targets[0], ast.Name) and isinstance(st.value, ast.Dict):
+        if isinstance(st, ast.Assign) and len(st.targets) == 1 and isinstance(st.targets[0], ast.Name) and \
+                isinstance(_as_dict_display(st.value), ast.Dict):
             try:
-                val = ast.literal_eval(_with_named_constants(v, st.value))
+                val = ast.literal_eval(_with_named_constants(v, _as_dict_display(st.value)))
             except Exception:
                 continue
             if set(val) == set(keys) and any(isinstance(n, ast.Name) and n.id == st.targets[0].id for n in ast.walk(v.f.node)):
